@@ -237,3 +237,18 @@ Check repo_root_test_uniform :
     let sh := ig_sh (build_root (walk_builder_opts f) (walk_builder_env f c)) in
     nd_has_git (parent_node sh d) = nd_has_git (child_node sh d)
     /\ nd_has_git (child_node sh d) = (negb (f_no_require_git f) && negb (f_no_ignore_vcs f) && repo_marker (di_dotgit d)).
+
+(* the source tie (DESIGN §4.2): `DecisionsLib.should_skip_entry` is regenerated on every run from the current text
+   of walk.rs::should_skip_entry (crates/ignore/src/walk.rs), as a function of the two tests it makes on
+   Ignore::matched_dir_entry's answer; it equals the model's should_skip_entry. *)
+From RG Require Gen.DecisionsLib Proofs.GenLibProofs.
+Theorem should_skip_entry_generated_eq_model : forall (ig : ignore) (path : bytes) (is_dir : bool),
+  DecisionsLib.should_skip_entry (m_is_ignore (matched_dir_entry ig path is_dir))
+                                 (m_is_whitelist (matched_dir_entry ig path is_dir))
+  = IgnoreDir.should_skip_entry ig path is_dir.
+Proof. exact GenLibProofs.should_skip_entry_eq. Qed.
+Print Assumptions should_skip_entry_generated_eq_model.
+Check should_skip_entry_generated_eq_model : forall (ig : ignore) (path : bytes) (is_dir : bool),
+  DecisionsLib.should_skip_entry (m_is_ignore (matched_dir_entry ig path is_dir))
+                                 (m_is_whitelist (matched_dir_entry ig path is_dir))
+  = IgnoreDir.should_skip_entry ig path is_dir.
